@@ -9,8 +9,7 @@ Require Import Calc.Base Calc.Bytecode Calc.Value Calc.FloatText Calc.Ast Calc.C
 Require Import Lia.
 Open Scope Z_scope.
 
-Definition assign_ok (g : string) (e : node) : bool :=
-  pure e && (negb (is_inc g e) || node_eqb e (NBin "+" (NName g) (NInt 1))).
+Definition assign_ok (g : string) (e : node) : bool := pure e.
 
 Fixpoint wstmt (t : node) : bool :=
   match t with
